@@ -323,9 +323,19 @@ fn run_one(id: &str, out: &mut Out, hist: &mut Hist) {
             let oracle = match &g2 {
                 CompileOutcome::Ok(ps2) => {
                     let p2 = &ps2[0];
-                    if p2.data != p1.data {
+                    let (const_lines, other_diff) =
+                        if p2.data != p1.data { tdres::split_const_lines(&text1, &p2.text()) } else { (0, None) };
+                    if const_lines > 0 && other_diff.is_none() && p2.slots != p1.slots {
+                        hist.add("not-fixpoint-slots");
+                        format!("FAIL:binding slots differ between generations: {:?} vs {:?}", p1.slots, p2.slots)
+                    } else if const_lines > 0 && other_diff.is_none() {
+                        // every differing line is of the known class `const` of the element type printed once (tdres.rs)
+                        hist.add("not-fixpoint-text:element-const");
+                        format!("FAIL:second generation differs: {} {}", first_diff(&text1, &p2.text()), tdres::CONST_TAG)
+                    } else if p2.data != p1.data {
                         hist.add("not-fixpoint-text");
-                        let d = first_diff(&text1, &p2.text());
+                        // lines of the known element-const class are passed over: the first OTHER differing line is reported
+                        let d = other_diff.unwrap_or_else(|| first_diff(&text1, &p2.text()));
                         // template stream: the generator's own record of argument kinds names the known class
                         let tag = id
                             .strip_prefix("tpl:")
